@@ -403,10 +403,19 @@ Fixpoint unbox_seq (R : rules) (E : env) (ps : list param) (args : list box) : l
       end
   | _, _ => inr ECrash
   end.
+(* right to left: the tail is unboxed first, its failure is the one that propagates *)
+Fixpoint unbox_rtl (R : rules) (E : env) (ps : list param) (args : list box) : list recv + eclass :=
+  match ps, args with
+  | [], [] => inl []
+  | p :: ps', a :: args' =>
+      match unbox_rtl R E ps' args' with
+      | inr e => inr e
+      | inl rs => match boxed_cast R E p a with CErr e => inr e | COk r => inl (r :: rs) end
+      end
+  | _, _ => inr ECrash
+  end.
 Definition unbox_all (R : rules) (E : env) (ps : list param) (args : list box) : list recv + eclass :=
-  if e_rtl E then
-    match unbox_seq R E (rev ps) (rev args) with inl rs => inl (rev rs) | inr e => inr e end
-  else unbox_seq R E ps args.
+  if e_rtl E then unbox_rtl R E ps args else unbox_seq R E ps args.
 
 (* Param_Types::match -> (is a match, needs conversions) *)
 Fixpoint dyn_match (cs : list conv) (named : list bool) (ps : list param) (args : list box) : bool * bool :=
@@ -732,7 +741,7 @@ Definition form_mutable (f : form) : bool :=
   | FPtr | FPtrCRef | FRef | FRRef | FUniqRRef | FUniqRef | FUniqCRef | FSh | FCSh | FShCRef | FShRef | FRw | FCRw | FRwCRef => true
   | _ => false
   end.
-Definition form_by_value (f : form) : bool := match f with FVal | FCVal => true | _ => false end.
+Definition form_by_value (f : form) : bool := match f with FVal | FCVal | FFn => true | _ => false end.
 Definition form_pointer_like (f : form) : bool :=
   match f with
   | FCPtr | FPtr | FPtrCRef | FCPtrCRef | FSh | FShC | FCSh | FShCRef | FShRef | FCShC | FShCCRef | FUniqRRef | FUniqRef | FUniqCRef => true
@@ -778,7 +787,7 @@ Definition recv_ok (E : env) (p : param) (a : box) (r : recv) : bool :=
              | CUser uid =>
                  Nat.eqb (cv_to c) t && Nat.eqb (cv_from c) (b_ty a) && negb (b_null a) && negb (r_isnull r)
                  && ident_eqb (r_id r) (IdConv uid (b_id a))
-                 && match e_ufun E uid (b_pay a) with Some p' => pay_eqb (r_pay r) p' | None => false end
+                 && match e_ufun E uid (b_pay a) with Some p' => pay_eqb (r_pay r) (copy_pay (r_acc r) t p') | None => false end
              | _ =>
                  (* up: Derived passed for Base; down: a Base-typed box whose object really is a Derived *)
                  ((Nat.eqb (cv_to c) t && Nat.eqb (cv_from c) (b_ty a))
@@ -867,3 +876,69 @@ Definition exact_overload (E : env) (f : func) (args : list box) : bool :=
       | _, _ => false
       end
   end.
+
+(* all argument bare types equal the parameter types: what dispatch() counts as zero differences
+   (a variadic function qualifies only for an empty argument list) *)
+Definition bare_exact (f : func) (args : list box) : bool :=
+  if (f_arity f =? -1)%Z then Nat.eqb (length args) 0
+  else (f_arity f =? Z.of_nat (length args))%Z && Nat.eqb (numdiffs (f_params f) args) 0.
+
+(* ------------------------------------------------------------------------------------------ *)
+(** * Conditions on the regenerated rules under which the theorems hold (checked by computation on the
+      generated table in DispatchTheorems.v) *)
+
+Definition rule_access (d : deref) (m : bool) : access := match d with DValue => AcCopy | _ => if m then AcMut else AcConst end.
+Definition inner_forms : list form :=
+  [FVal; FCVal; FCPtr; FPtr; FPtrCRef; FCPtrCRef; FCRef; FRef; FRRef; FUniqRRef; FUniqRef; FUniqCRef; FSh; FShC; FCSh; FShCRef; FShRef; FCShC; FShCCRef;
+   FBV; FBVRef; FCBV; FBVCRef; FRw; FCRw; FRwCRef; FRwC; FCRwC; FRwCCRef].
+Definition access_of_form_inner (f : form) : access :=
+  match f with FVal | FCVal => AcCopy | _ => form_access f end.
+Definition form_rule_ok (R : rules) (f : form) : bool :=
+  match resolve 8 (r_cast R) f with
+  | Some (RVerify v a d m) =>
+      match lookup_vrule (r_verify R) v (acc_const a) with
+      | Some vr =>
+          access_beq (rule_access d m) (access_of_form_inner f)
+          && Bool.eqb m (vr_nonconst vr)                               (* mutable access <-> the !is_const() test *)
+          && Bool.eqb m (negb (acc_const a))                           (* mutable access <-> get_ptr() *)
+          && (match d with DPtr => true | _ => vr_nullthrow vr end)    (* what is dereferenced was null-checked *)
+          && Bool.eqb (match d with DPtr => true | _ => false end) (form_pointer_like f)
+      | None => false
+      end
+  | Some (RAny AnyShared) | Some (RAny AnyUnique) => access_beq AcMut (form_access f) && form_pointer_like f && negb (form_handle f)
+  | Some RAnySplit => access_beq AcConst (form_access f) && form_pointer_like f && negb (form_handle f)
+  | Some (RSelf _) => form_handle f
+  | _ => false
+  end.
+Definition rules_ok (R : rules) : bool :=
+  forallb (form_rule_ok R) inner_forms
+  && r_arity_check R
+  && forallb (fun c => match c with RcBadCast | RcArity | RcGuard => true | _ => false end) (r_dispatch_retry R)
+  && forallb (fun c => match c with RcBadCast | RcArity | RcGuard => true | _ => false end) (r_dwc_retry R).
+
+(* the conversion table does not mention the catch-all types nor the function type, and converts between
+   distinct types *)
+Definition env_ok (E : env) : bool :=
+  forallb (fun c => negb (Nat.eqb (cv_to c) T_BV) && negb (Nat.eqb (cv_to c) T_BN) && negb (Nat.eqb (cv_to c) T_FUN)
+                    && negb (Nat.eqb (cv_from c) T_BV) && negb (Nat.eqb (cv_from c) T_BN) && negb (Nat.eqb (cv_from c) T_FUN)
+                    && negb (Nat.eqb (cv_to c) (cv_from c))) (e_convs E).
+(* Type_Info and form of a parameter belong together; the parameter list has the declared arity *)
+Definition param_wf (p : param) : bool :=
+  negb (ti_undef (p_ti p))
+  && (if form_handle (p_form p) then Nat.eqb (p_bare p) T_BV && negb (ti_arith (p_ti p))
+      else if form_beq (p_form p) FBN then Nat.eqb (p_bare p) T_BN && negb (ti_arith (p_ti p))
+      else if form_beq (p_form p) FFn then negb (ti_arith (p_ti p)) && negb (Nat.eqb (p_bare p) T_FUN) && negb (Nat.eqb (p_bare p) T_BV) && negb (Nat.eqb (p_bare p) T_BN)
+      else negb (Nat.eqb (p_bare p) T_BV) && negb (Nat.eqb (p_bare p) T_BN)).
+Definition func_wf (f : func) : bool :=
+  ((f_arity f <? 0)%Z || (f_arity f =? Z.of_nat (length (f_params f)))%Z)
+  && match f_kind f with
+     | KNative => forallb param_wf (f_params f) && negb (f_arity f <? 0)%Z
+     | KDyn named => if (f_arity f <? 0)%Z then true
+                     else forall2b (fun n p => n || negb (ti_arith (p_ti p))) named (f_params f)   (* untyped parameters are Boxed_Value *)
+     | KAttr => forallb param_wf (f_params f) && (f_arity f =? 1)%Z
+                && forallb (fun p => negb (form_handle (p_form p)) && negb (form_beq (p_form p) FBN) && negb (form_beq (p_form p) FFn) && negb (ti_arith (p_ti p))) (f_params f)
+     end.
+(* script values: a box never holds a Boxed_Value / Boxed_Number; function values carry their arity *)
+Definition box_wf (b : box) : bool :=
+  negb (Nat.eqb (b_ty b) T_BV) && negb (Nat.eqb (b_ty b) T_BN)
+  && implb (Nat.eqb (b_ty b) T_FUN && negb (b_undef b)) (match b_pay b with PFn _ _ => true | _ => false end).
